@@ -1,6 +1,7 @@
 import Driver.Proto
 import Model.FixedText
 import Model.FixedTextFloat
+import Model.FixedTextExp
 import Generated.Facts
 open Proto FixedText
 
@@ -16,6 +17,14 @@ def resStr : Res → String
   | .ok v => "ok:" ++ toString v
   | .err => "err"
   | .exp => "exp"
+
+/-- `exp` = outside the model (hexadecimal float / underscores), `impl` = float → int64 conversion out of range -/
+def resXStr : ResX → String
+  | .ok v => "ok:" ++ toString v
+  | .err => "err"
+  | .implDefined => "impl"
+  | .panic => "panic"
+  | .outside => "exp"
 
 def target? : String → Option Target
   | "i8" => some ⟨8, true⟩ | "i16" => some ⟨16, true⟩ | "i32" => some ⟨32, true⟩ | "i64" => some ⟨64, true⟩
@@ -80,8 +89,8 @@ def step (_ : Unit) (line : String) : Unit × String :=
     | ["parse", ty, d, h] =>
       match cfg? d, hexBytes? h with
       | some (places, mult), some s =>
-        if ty == "128" then resStr (fromStr128 places mult s) ++ " " ++ resStr (unmarshal128 places mult s) ++ " lib-ok"
-        else resStr (fromStr64 places mult s) ++ " " ++ resStr (unmarshal64 places mult s) ++ " lib-ok"
+        if ty == "128" then resXStr (fromStrX128 places mult s) ++ " " ++ resXStr (unmarshalX128 places mult s) ++ " lib-ok"
+        else resXStr (fromStrX64 places mult s) ++ " " ++ resXStr (unmarshalX64 places mult s) ++ " lib-ok"
       | _, _ => "bad-op"
     | ["unq", h] =>
       match hexBytes? h with
